@@ -100,6 +100,12 @@ PROFILES = {
     'C11': dict(builder='puppet', p_managed=0.8, p_numprocs=0.2, p_autostart=0.1, n_groups=[1, 2, 2], n_programs=[1, 2, 3],
                 child_kinds=SIMPLE_CHILDREN, supvisors_failure_strategies=['CONTINUE'], p_auto_fence=0.3,
                 inactivity_ticks=[2, 2, 3], hostile=0.0, window=(18.0, 160.0), quiesce=45.0, n_events=(10, 120)),
+    'C13': dict(builder='puppet', p_managed=0.8, p_numprocs=0.1, p_autostart=0.2, n_groups=[1, 2], n_programs=[1, 2, 3],
+                child_kinds=SIMPLE_CHILDREN, supvisors_failure_strategies=['CONTINUE'], p_auto_fence=0.7,
+                inactivity_ticks=[2, 2, 3], hostile=0.2, window=(18.0, 160.0), quiesce=30.0, n_events=(20, 120),
+                p_sees_isolated=0.3, p_strategy_mismatch=0.25, n_real=[1, 1, 2],
+                weights={'event': 40, 'forced': 5, 'removed': 5, 'added': 5, 'down': 3, 'mute': 4, 'stealth': 2,
+                         'disability': 5, 'op': 3, 'tick': 8, 'state': 8, 'replay': 12}),
     'C02': dict(BASE, max_faults=5, ops='fsm'),
     'C16': dict(BASE, max_faults=5, ops='all', p_absent=0.3, p_shared_node=0.5),
 }
@@ -168,6 +174,9 @@ def observers_for(prop, scen):
     elif prop == 'C07':
         from oracles import detection
         obs.append(detection.FailureDetection())
+    elif prop == 'C13':
+        from oracles import isolation
+        obs.append(isolation.Isolation())
     elif prop == 'C11':
         from oracles import synthesis
         obs.append(synthesis.Synthesis())
